@@ -793,13 +793,13 @@ class Group(System):
         self._has_resid_scaling = False
         self._has_bounds = False
 
-        _has_applied_options = set()
+        # Apply all of the options before collecting the flags, because the options set on a
+        # group can refer to outputs any number of levels below it.
+        for subsys in self.system_iter(include_self=True, recurse=True):
+            subsys._apply_output_solver_options()
+
         for grp in self.system_iter(include_self=True, recurse=True, depth_first=True, typ=Group):
             for subsys in grp.system_iter(include_self=True, recurse=False):
-                if subsys.pathname not in _has_applied_options:
-                    subsys._apply_output_solver_options()
-                    _has_applied_options.add(subsys.pathname)
-
                 grp._has_output_scaling |= subsys._has_output_scaling
                 grp._has_output_adder |= subsys._has_output_adder
                 grp._has_resid_scaling |= subsys._has_resid_scaling
